@@ -11,7 +11,7 @@ from pipelines import pipeline, cat_files, spec_must_hold, write_lines, replay_c
 CHECKS = {
  "C15": dict(
   text="The persistent formats (plain and YAML genome, organism binary form, population file, fast-solver JSON model, experiment gob stream) are specified as token streams / documents with separately transcribed writer and reader models; TLC checks Read(Write(x)) = x (plain format: minus control genes; YAML: exact unless a negative zero occurs) on every genome, organism, population and experiment record in scope. Every structure is rebuilt from real objects with adversarial float64 values, written by the real writer (output compared token by token with the model's), read back by the real reader and compared bit for bit; restored fast solvers are driven against the originals; experiment statistics are compared before/after. Genomes of real evolution runs are round-tripped through every genome format, and their real plain encodings are validated by TLC against the writer and reader models.",
-  note="Exhaustive (TLC BFS) per dimension, not over the product: every gene line (all node pairs incl. self-loops, 4 flag combinations, trait pointer nil/set, 4-5 weight classes) over a fixed context; every node list of 0-1 bias, 0-1 (thorough 0-2) inputs, 1 (1-2) outputs, 0-1 hidden with trait pointers nil/set; every list of 1-2 (1-3) genes; all 400 output x hidden pairs of the 20 scalar activation types; one control gene with every module activation, 1-2 inputs/outputs; organisms, populations of <= 3 (4) and experiments of <= 2 (3) trials x <= 2 generations over a pool of 3 genomes. Larger genomes (<= 3 traits, 9 nodes, 7 genes, 2 modules) only by TLC simulation; evolved genomes are samples. Exactness of float text (shortest round-trip formatting) is decided by the replayer's bit comparison on 2 (thorough 8) seed-derived tables of ~1000 adversarial finite float64 values per structure, not by TLC. Assumptions: finite floats; -0.0 excluded for YAML only (its sign is lost there; kept everywhere else); every generation of an experiment has a champion (a nil champion writes a stream that cannot be read); only what the writers write is compared (not Trial.Duration, Experiment.RandSeed/MaxFitnessScore, species). Trusted: TLC, the replayer's construction and projection of genomes, yaml.v3/json/gob generic decoders used to compare documents.",
+  note="Exhaustive (TLC BFS) per dimension, not over the product: every gene line (all node pairs incl. self-loops, 4 flag combinations, trait pointer nil/set, 4-5 weight classes) over a fixed context; every node list of 0-1 bias, 0-1 (thorough 0-2) inputs, 1 (1-2) outputs, 0-1 hidden with trait pointers nil/set; every list of 1-2 (1-3) genes; all 400 output x hidden pairs of the 20 scalar activation types; one control gene with every module activation, 1-2 inputs/outputs; organisms, populations of <= 3 (4) and experiments of <= 2 (3) trials x <= 2 generations over a pool of 3 genomes. Larger genomes (<= 3 traits, 9 nodes, 7 genes, 2 modules) only by TLC simulation; evolved genomes are samples. Exactness of float text (shortest round-trip formatting) is decided by the replayer's bit comparison on 2 (thorough 4) seed-derived tables of ~1000 adversarial finite float64 values per structure, not by TLC. Assumptions: finite floats; -0.0 excluded for YAML only (its sign is lost there; kept everywhere else); every generation of an experiment has a champion (a nil champion writes a stream that cannot be read); only what the writers write is compared (not Trial.Duration, Experiment.RandSeed/MaxFitnessScore, species). Trusted: TLC, the replayer's construction and projection of genomes, yaml.v3/json/gob generic decoders used to compare documents.",
   technique=B2, ref="DESIGN.md 7/C15"),
 }
 
@@ -23,7 +23,7 @@ THOROUGH_CFGS = ["MC_Codec_thorough.cfg", "MC_Codec_nodes_thorough.cfg", "MC_Cod
 @pipeline("C15")
 def c15(ctx, replay):
     thorough = ctx.tier == "thorough"
-    tables = 8 if thorough else 2
+    tables = 4 if thorough else 2
     ctx.rule = ("cases = every structure MC_Codec reaches (genomes built trait by trait, node by node, gene by gene, module by "
                 "module in 5 exhaustive scopes plus simulated larger genomes; organisms, populations and experiment records "
                 "over a pool of 3 genomes), each replayed with %d seed-derived float tables: real writer output compared with "
